@@ -144,7 +144,29 @@ func getParentMethodT(
 	isStatic bool,
 ) *T {
 
+	return getParentMethodTVisited(
+		frame, class, method, isPrivate, isStatic, map[ClassNode]bool{},
+	)
+}
+
+// the inheritance map may contain cycles (class A < B ... class B < A, a module
+// including itself): every node is expanded at most once per lookup
+func getParentMethodTVisited(
+	frame string,
+	class string,
+	method string,
+	isPrivate bool,
+	isStatic bool,
+	visited map[ClassNode]bool,
+) *T {
+
 	classNode := ClassNode{Frame: frame, Class: class}
+
+	if visited[classNode] {
+		return nil
+	}
+
+	visited[classNode] = true
 
 	for _, parentNode := range ClassInheritanceMap[classNode] {
 		var methodT *T
@@ -221,12 +243,13 @@ func getParentMethodT(
 		}
 
 		methodT =
-			getParentMethodT(
+			getParentMethodTVisited(
 				parentNode.Frame,
 				parentNode.Class,
 				method,
 				isPrivate,
 				isStatic,
+				visited,
 			)
 
 		if methodT != nil {
@@ -441,7 +464,28 @@ func setParentValueT(
 	isStatic bool,
 ) bool {
 
+	return setParentValueTVisited(
+		frame, class, method, variable, t, isStatic, map[ClassNode]bool{},
+	)
+}
+
+func setParentValueTVisited(
+	frame string,
+	class string,
+	method string,
+	variable string,
+	t *T,
+	isStatic bool,
+	visited map[ClassNode]bool,
+) bool {
+
 	classNode := ClassNode{Frame: frame, Class: class}
+
+	if visited[classNode] {
+		return false
+	}
+
+	visited[classNode] = true
 
 	for _, parentNode := range ClassInheritanceMap[classNode] {
 		_, ok :=
@@ -466,7 +510,7 @@ func setParentValueT(
 		}
 
 		ok =
-			setParentValueT(parentNode.Frame, parentNode.Class, method, variable, t, isStatic)
+			setParentValueTVisited(parentNode.Frame, parentNode.Class, method, variable, t, isStatic, visited)
 
 		if ok {
 			return true
@@ -521,7 +565,27 @@ func getParentValueT(
 	isStatic bool,
 ) *T {
 
+	return getParentValueTVisited(
+		frame, class, method, variable, isStatic, map[ClassNode]bool{},
+	)
+}
+
+func getParentValueTVisited(
+	frame string,
+	class string,
+	method string,
+	variable string,
+	isStatic bool,
+	visited map[ClassNode]bool,
+) *T {
+
 	classNode := ClassNode{Frame: frame, Class: class}
+
+	if visited[classNode] {
+		return nil
+	}
+
+	visited[classNode] = true
 
 	for _, parentNode := range ClassInheritanceMap[classNode] {
 		t, ok :=
@@ -538,7 +602,7 @@ func getParentValueT(
 		}
 
 		valueT :=
-			getParentValueT(parentNode.Frame, parentNode.Class, method, variable, isStatic)
+			getParentValueTVisited(parentNode.Frame, parentNode.Class, method, variable, isStatic, visited)
 
 		if valueT != nil {
 			return valueT
